@@ -1,6 +1,8 @@
 // ---- env/std_shadow.rs: gaps in vstd's std specs, and a clock model -------------------------
 pub assume_specification<T: ::std::cmp::Ord>[::std::cmp::min](a: T, b: T) -> (r: T)
     ensures T::obeys_cmp_spec() ==> r == (if a.cmp_spec(&b) == core::cmp::Ordering::Greater { b } else { a });
+pub assume_specification<T: ::std::cmp::Ord>[::std::cmp::max](a: T, b: T) -> (r: T)
+    ensures T::obeys_cmp_spec() ==> r == (if b.cmp_spec(&a) == core::cmp::Ordering::Less { a } else { b });
 pub assume_specification<T, E>[::std::result::Result::<T, E>::unwrap_or](s: ::std::result::Result<T, E>, d: T) -> (r: T)
     ensures r == (match s { Ok(v) => v, Err(_) => d });
 
